@@ -194,7 +194,8 @@ pub fn fsl(_args: &hxlib::util::Args) -> i32 {
                                     let lens: Vec<usize> = (0..nlists).map(|i| if i % 5 == 2 { 0 } else { 1 + i % 3 }).collect();
                                     let n = if in_list { lens.iter().sum() } else { rows };
                                     let m = n * dim;
-                                    let valid = |i: usize| !(item_nulls && (i + salt) % 3 == 1);
+                                    let all_null = std::env::var("C25_ALLNULL").is_ok();
+                                    let valid = |i: usize| !(item_nulls && (all_null || (i + salt) % 3 == 1));
                                     let items: ArrayRef = match ty {
                                         "u8" => Arc::new(UInt8Array::from((0..m).map(|i| if valid(i) { Some(if std::env::var("C25_CONST").is_ok() { 144u8 } else { (i * 3 + salt) as u8 }) } else { None }).collect::<Vec<_>>())),
                                         "i32" => Arc::new(Int32Array::from((0..m).map(|i| if valid(i) { Some(if std::env::var("C25_CONST").is_ok() { 144i32 } else { (i * 3 + salt) as i32 }) } else { None }).collect::<Vec<_>>())),
